@@ -58,6 +58,12 @@ func (r *Reader) Read(p []byte) (n int, err error) {
 	// The remaining bits are used for the chunk size (up to 64KB).
 	r.buf = r.b[:size]
 	if _, err := io.ReadFull(r.r, r.buf); err != nil {
+		// The size header promised data: a stream that ends here is truncated,
+		// even if not a single data byte arrived (io.ReadFull reports io.EOF then).
+		r.buf = nil
+		if err == io.EOF {
+			err = io.ErrUnexpectedEOF
+		}
 		return 0, err
 	}
 
